@@ -300,6 +300,75 @@ func runC14(c *Ctx) {
 		c.verdict(len(bad) == 0 && len(odd) == 0 && len(single.sites) >= 1 && len(gEnd.sites) >= 1, construct, c.P.Pos(fn.Pos()), "success only through verify(overlapEnd)=nil or overlapEnd <= overlapStart", join(uniq(bad))+join(odd), c.ats(append(startV, endV...))...)
 	})
 
+	c.rule("C14.V2", "the batch validators look at every header of the batch: blockHeadersImportSourceValidator.ValidateBatch visits indices 1..len-1 and validates each adjacent pair (headers[i-1], headers[i]); filterHeadersImportSourceValidator.ValidateBatch visits 0..len-1 with ValidateSingle; any early way out of either loop returns an error", func() {
+		for _, spec := range []struct {
+			fn, callee string
+			first      int64
+			pair       bool
+		}{
+			{"(*chainimport.blockHeadersImportSourceValidator).ValidateBatch", "ValidatePair", 1, true},
+			{"(*chainimport.filterHeadersImportSourceValidator).ValidateBatch", "ValidateSingle", 0, false},
+		} {
+			fn := c.fn(spec.fn)
+			recvT := "blockHeadersImportSourceValidator"
+			if !spec.pair {
+				recvT = "filterHeadersImportSourceValidator"
+			}
+			callee := c.method("chainimport", recvT, spec.callee)
+			var h *ssa.BasicBlock
+			var inLoop []ssa.Instruction
+			for _, x := range find(fn, callTo(callee)) {
+				if lh := ir.LoopHeaderOf(x.Block()); lh != nil {
+					h = lh
+					inLoop = append(inLoop, x)
+				}
+			}
+			isHeaders := func(v ssa.Value) bool { return v == ssa.Value(fn.Params[1]) }
+			if h == nil || len(inLoop) != 1 {
+				c.fail(c.nm(fn)+" | one "+spec.callee+" call per element", c.P.Pos(fn.Pos()), fmt.Sprintf("%d call(s) inside a loop", len(inLoop)))
+				continue
+			}
+			lf := loopFormOf(h)
+			call := inLoop[0]
+			// element offsets of the arguments relative to the loop counter
+			offOf := func(v ssa.Value) (int64, bool) {
+				ld, ok := v.(*ssa.UnOp)
+				if !ok {
+					return 0, false
+				}
+				ia, ok := ld.X.(*ssa.IndexAddr)
+				if !ok || !isHeaders(ia.X) {
+					return 0, false
+				}
+				return counterOffset(lf, ia.Index)
+			}
+			a := argsOf(call)
+			okArgs := false
+			lo, hi := int64(0), int64(0)
+			if spec.pair {
+				d0, ok0 := offOf(a[0])
+				d1, ok1 := offOf(a[1])
+				okArgs = ok0 && ok1 && d1 == d0+1
+				lo, hi = d0, d1
+			} else {
+				d0, ok0 := offOf(a[0])
+				okArgs = ok0
+				lo, hi = d0, d0
+			}
+			if okArgs {
+				c.fullRangeOff(fn, h, "the loop calling "+spec.callee, isHeaders, lo, hi, errSuccess)
+			}
+			var starts []start
+			for i, sc := range h.Succs {
+				if ir.LoopBlocks(h)[sc] {
+					starts = append(starts, atEdge(c, ir.Edge{From: h, Succ: i}, "next element"))
+				}
+			}
+			c.mustFollowIter(fn, "each element of the batch", starts, func(in ssa.Instruction) bool { return in == call }, spec.callee, nil, 1)
+			c.verdict(okArgs, c.nm(fn)+" | "+spec.callee+" is applied to the element(s) at the loop index", c.at(call), "arguments are adjacent elements (headers[i+d], headers[i+d+1]) / the element headers[i+d] of the batch", "the validated element(s) are not (adjacent) elements of the batch at the loop index")
+		}
+	})
+
 	c.rule("C14.V1", "the validators see every header that gets written: the import source iterators cover the inclusive index range [start, end]: after a successfully delivered element the sequence ends (returns without a further delivery) only on the edge where the running index is known to be greater than the end index", func() {
 		for _, spec := range []struct{ parent string }{
 			{"(*chainimport.importSourceHeaderIterator).Iterator"},
